@@ -19,7 +19,7 @@ Failed(e) ==
          IF e.writes_seen = 0 THEN {}
          ELSE IF e.done /\ e.result \notin {"ok", "CasFailed", "NotMostRecent", "ErrorResponse:301"} THEN {} ELSE {"C18_ROIgnored"}
     [] e.e = "adaptive" ->
-         IF e.variant \in {"reachable", "reachable_public_ip"}
+         IF e.variant \in {"reachable", "reachable_public_ip", "reachable_busy", "reachable_busy_public_ip"}
          THEN (IF e.self_ping_seen /\ ~e.firewalled /\ e.server_mode /\ e.switch_minute > 0 /\ e.switch_minute <= 17
                   /\ e.answers_ping /\ e.last_request_ro = 0 /\ e.id_valid_for_ip THEN {} ELSE {"C18_Adaptive"})
          ELSE (IF ~e.server_mode /\ e.firewalled /\ e.last_request_ro = 1 /\ ~e.answers_ping THEN {} ELSE {"C18_NatStaysClient"})
